@@ -48,7 +48,13 @@ MAX_TOTAL = 10
 
 
 def _okey(l):
-    return (str(type(l)), l)
+    # repr as the second component: the harness' own order must not need the labels to be mutually comparable
+    return (str(type(l)), repr(l))
+
+
+# labels of one type that cannot be ordered among themselves: fine for a plain dict handed to a solver function (nothing
+# in the documented behaviour sorts them), not usable for the model classes (whose keys are sorted)
+UNORDERABLE = [("q", 0), ("q", "aux"), ("r", 1), ("r", None), ("q", (1,)), ("s", 2.5)]
 
 
 # ---------------------------------------------------------------------------
@@ -110,7 +116,10 @@ def cases():
         kind, solver = ch
         spin = gen.is_spin(kind)
         quad = gen.is_quad(kind) or solver in ("qubo", "quso")
-        return st.one_of(gen.label_pool(gen.is_matrix(kind), 3, 6), gen.label_pool(gen.is_matrix(kind), 1, 6)).flatmap(
+        pools = [gen.label_pool(gen.is_matrix(kind), 3, 6), gen.label_pool(gen.is_matrix(kind), 1, 6)]
+        if kind.startswith("dict"):
+            pools = pools + pools + [st.integers(2, 6).map(lambda n: list(UNORDERABLE[:n]))]
+        return st.one_of(pools).flatmap(
             lambda labels: st.fixed_dictionaries({
                 "kind": st.just(kind),
                 "solver": st.just(solver),
